@@ -7,7 +7,14 @@
                                                                     (5 bits: claim names gone nodup forced)
           -> err kind                                               emitter raised
    source text env  -> ok env | err kind                            model shell alone
-   lex    text      -> ok cmd|cmd (words comma separated) | err kind *)
+   lex    text      -> ok cmd|cmd (words comma separated) | err kind
+   front  nv quiet cmds(comma separated)
+          -> ok  stdout  (L listing | N)                            setupcmd.EupsSetup.execute at nv flags -v
+   session start  then four fields per call: kind (c<is_eups><fwd> | f)  new-env  aliases  oldaliases
+          -> ok  texts(comma separated)  flags(2 bits: session_in_claim session_keeps)  final-env
+                 (ok env | err kind)                                api_session; its texts sourced in turn by
+                                                                    the model shell from start
+          -> err kind *)
 let dec_env (s : string) : (ascii list * ascii list) list =
   dec_list ';' (fun kv ->
     match String.index_opt kv '=' with
@@ -57,6 +64,24 @@ let handle (f : string array) : string =
     (match sh_lex (dec_str f.(1)) with
      | Ok cs -> "ok\t" ^ enc_list '|' (fun ws -> enc_list ',' enc_str ws) cs
      | Err k -> "err\t" ^ err_name k)
+  | "front" ->
+    let cmds = dec_strlist ',' f.(3) in
+    let (out, lst) = front_end (nat_of_int (int_of_string f.(1))) (bool_of_field f.(2)) cmds in
+    "ok\t" ^ enc_str out ^ "\t" ^ (match lst with Some l -> "L" ^ enc_str l | None -> "N")
+  | "session" ->
+    let start = dec_env f.(1) in
+    let n = (Array.length f - 2) / 4 in
+    let calls = Stdlib.List.init n (fun i ->
+      let k = f.(2 + 4 * i) and nw = dec_env f.(3 + 4 * i) in
+      if k = "f" then Failed nw
+      else Call (k.[1] = '1', k.[2] = '1', nw, dec_env f.(4 + 4 * i), dec_oldal f.(5 + 4 * i))) in
+    (match api_session start calls with
+     | Err k -> "err\t" ^ err_name k
+     | Ok steps ->
+       let texts = Stdlib.List.map snd steps in
+       "ok\t" ^ enc_list ',' enc_str texts ^ "\t" ^
+       field_of_bool (session_in_claim start calls) ^ field_of_bool (session_keeps start calls) ^ "\t" ^
+       enc_env (session_final start calls) ^ "\t" ^ show_env (sh_chain texts start))
   | _ -> failwith "unknown op"
 
 let () = main_loop handle
